@@ -71,7 +71,7 @@ struct Stats {
     uint64_t per_kernel[5][2] = {{0}};
     uint64_t skipped_perm_ovf = 0, skipped_lap_ovf = 0, skipped_tor_d2 = 0, skipped_ltor_d2 = 0,
              skipped_kernel = 0, skipped_overflow_f32 = 0, out_of_domain = 0, hwc_ge1 = 0;
-    uint64_t mult_ge17 = 0, total_ge20 = 0;
+    uint64_t mult_ge17 = 0, total_ge20 = 0, mult_gt1 = 0;
     std::unordered_set<uint64_t> hashes;
 };
 static Stats g_stats;
@@ -92,10 +92,11 @@ static void write_stats(bool with_hashes = true) {
                     g_stats.per_kernel[k][p]);
     fprintf(f, "skip:perm_ovf %" PRIu64 "\nskip:lap_ovf %" PRIu64 "\nskip:tor_d2 %" PRIu64
                "\nskip:ltor_d2 %" PRIu64 "\nskip:kernel %" PRIu64 "\nf32_overflow_skipped %" PRIu64
-               "\nout_of_domain %" PRIu64 "\nmult_ge17 %" PRIu64 "\ntotal_ge20 %" PRIu64 "\n",
+               "\nout_of_domain %" PRIu64 "\nmult_ge17 %" PRIu64 "\ntotal_ge20 %" PRIu64
+               "\nmult_gt1 %" PRIu64 "\n",
             g_stats.skipped_perm_ovf, g_stats.skipped_lap_ovf, g_stats.skipped_tor_d2,
             g_stats.skipped_ltor_d2, g_stats.skipped_kernel, g_stats.skipped_overflow_f32,
-            g_stats.out_of_domain, g_stats.mult_ge17, g_stats.total_ge20);
+            g_stats.out_of_domain, g_stats.mult_ge17, g_stats.total_ge20, g_stats.mult_gt1);
     size_t n = 0;
     if (with_hashes)
     for (uint64_t h : g_stats.hashes) {
@@ -335,6 +336,7 @@ extern "C" int LLVMFuzzerTestOneInput(const uint8_t *data, size_t size) {
         int mx = 0;
         for (int r : rows) mx = std::max(mx, r);
         if (mx >= 17) g_stats.mult_ge17++;
+        if (mx > 1) g_stats.mult_gt1++;
         if (tot >= 20) g_stats.total_ge20++;
         uint64_t before = g_stats.nontrivial;
         if (f32) run_perm<float>(laplace, rows, cols, A, desc);
